@@ -438,6 +438,9 @@ func execC17Bubble(t *testing.T, p *sim.Program, c *sim.Ctx) {
 			if n < 1 || n > 32 {
 				n = 1
 			}
+			if mr := m.MaxRequest(); n > mr {
+				n = mr // GM mode serves at most one output block per request
+			}
 			c.Abs("long", cnt > 65536, n)
 			out := make([]byte, n)
 			for j := 0; j < cnt; j++ {
